@@ -3,6 +3,7 @@ CONSTANTS P = 1
           L = 4
           MaxClock = 10
           MaxPeerKa = 2
+          MaxReconnects = 0
           MaxBlocks = 1
 INVARIANT TypeOK
 INVARIANT NoFalseTimeout
